@@ -114,6 +114,16 @@ CLAIMED = {
              "code on residues with carry-critical limbs and random ones (with receiver aliasing), canonical decoding around the "
              "modulus and MultiSelect are recomputed by TLC with integer arithmetic.",
         note=SM2NOTE, ref="6 C16"),
+    "C18": dict(
+        technique="complete enumeration: every table entry and assembly DATA block recomputed by TLC from its derivation (EC scalar multiples, algebraic S-box, SDM semantics of the GFNI affine instructions)",
+        text="Finite and enumerated completely in both tiers: TLC recomputes every entry of the four SM2 comb tables and three "
+             "remainder tables (both coordinates, Montgomery form) as the stated multiple of G, all S-box / T-table / CK / FK / "
+             "Tj / IV entries from the standards' formulas, the curve parameter block, and the DATA blocks parsed from the "
+             "amd64 and arm64 .s files of the current tree (GFNI matrices checked against the algebraic S-box for all 256 "
+             "inputs with the Intel SDM definition of GF2P8AFFINEQB/INVQB; FK/CK/S-box copies; GHASH polynomial; shuffles; "
+             "nibble-reversal table; counter increments).",
+        note=SM2NOTE + " GHASH lane-permutation index constants without a published derivation are covered functionally by C06.",
+        ref="6 C18"),
     "C19": dict(
         category="model_checking",
         technique="TLA+ Reader x SignFlow model checked exhaustively by TLC (all scripts of <= 3 Read results); its script shapes and every fault offset replayed on the real code and validated by TLC",
